@@ -727,14 +727,12 @@ struct Pass {
     family: Family,
     depth_q: usize,
     depth_t: usize,
-    /// kinds explored one statement deeper in the thorough tier
-    deeper_t: &'static [Kind],
 }
 const PASSES: [Pass; 4] = [
-    Pass { name: "full", rule: Rule::Full, family: Family::Mixed, depth_q: 3, depth_t: 4, deeper_t: &[] },
-    Pass { name: "live-plain", rule: Rule::Live, family: Family::Plain, depth_q: 4, depth_t: 6, deeper_t: &[] },
-    Pass { name: "live-ret", rule: Rule::Live, family: Family::Ret, depth_q: 4, depth_t: 6, deeper_t: &[] },
-    Pass { name: "live-mixed", rule: Rule::Live, family: Family::Mixed, depth_q: 4, depth_t: 5, deeper_t: &[] },
+    Pass { name: "full", rule: Rule::Full, family: Family::Mixed, depth_q: 3, depth_t: 4 },
+    Pass { name: "live-plain", rule: Rule::Live, family: Family::Plain, depth_q: 4, depth_t: 6 },
+    Pass { name: "live-ret", rule: Rule::Live, family: Family::Ret, depth_q: 4, depth_t: 6 },
+    Pass { name: "live-mixed", rule: Rule::Live, family: Family::Mixed, depth_q: 4, depth_t: 5 },
 ];
 fn pass_by_name(n: &str) -> &'static Pass {
     PASSES.iter().find(|p| p.name == n).unwrap_or(&PASSES[0])
